@@ -527,8 +527,25 @@ def build_batches(specs_ok, gen_dir, batch_root, batch_size=150):
         binp = f"{bd}/runner_bin"
         shutil.copy(f"{target}/debug/runner", binp)
         runners.append((bd, ok_ids, binp))
+        _gc_batch_artifacts(target)
         log(f"batch {bi}: {len(batch)} SDK crates, {len(ok_ids)} built, {time.time() - t0:.1f}s")
     return build_res, runners
+
+
+def _gc_batch_artifacts(target):
+    """The artefacts of the SDK crates and of the runner are never reused (every batch has new crate
+    names): remove them so that the shared target dir only keeps the dependency closure."""
+    import glob
+    for pat in ("deps/libs_*", "deps/s_*", "deps/runner-*", "libs_*", ".fingerprint/s_*", ".fingerprint/runner-*",
+                "incremental/s_*", "incremental/runner-*"):
+        for f in glob.glob(f"{target}/debug/{pat}"):
+            if os.path.isdir(f):
+                shutil.rmtree(f, ignore_errors=True)
+            else:
+                try:
+                    os.remove(f)
+                except OSError:
+                    pass
 
 
 def run_runner(binp, script, timeout=1800):
